@@ -53,6 +53,7 @@ func TestVerif(t *testing.T) {
 	simkit.Main(t, propC19())
 	simkit.Main(t, propC06())
 	simkit.Main(t, propC04())
+	simkit.Main(t, propC47e())
 }
 
 const (
